@@ -30,6 +30,7 @@ type conf struct {
 	V1          bool
 	Profile     string // small | wide (pools beyond 12 txs) | long (tx lengths around the varint boundaries) | wide-long
 	Alpha       int    // number of distinct transactions in play
+	HugeGas     bool   // gas values and limits near the top of the int64 range
 	Size        int
 	MaxTxsBytes int64
 	MaxTxBytes  int
@@ -61,6 +62,9 @@ type model struct {
 	postOn bool
 	postG  int64 // PostCheckMaxGas argument (-1 = unlimited)
 	seq    int
+	// forgetRepeats: follow the listed finding C12-update-forgets-repeated-committed-tx instead of the intended
+	// behaviour (set by the driver only while that finding is listed as known)
+	forgetRepeats bool
 
 	// accounting for the non-triviality rule
 	liveEvict      int // cache evictions of a tx that is in the pool at that moment
@@ -262,10 +266,15 @@ func (m *model) checkTx(idx int, v verdict) ctExpect {
 // update applies a block: committed[i] with DeliverTx success ok[i]; pre/post (when set) replace the filters.
 func (m *model) update(height int64, committed []int, ok []bool, tab *[nAlpha]verdict) {
 	m.height = height
+	// A block may hold the same tx more than once (nothing in block validation forbids it; an application with
+	// replay protection answers the repeat with an error code). A tx that was committed successfully stays
+	// remembered: a failed repeat behind it does not make the cache forget it.
+	okSoFar := map[int]bool{}
 	for k, idx := range committed {
 		if ok[k] {
 			m.cachePush(idx)
-		} else if !m.c.Keep {
+			okSoFar[idx] = true
+		} else if !m.c.Keep && (!okSoFar[idx] || m.forgetRepeats) {
 			m.cacheRemove(idx)
 		}
 		m.poolRemove(idx)
@@ -307,10 +316,11 @@ func (m *model) reapPrefix(maxBytes, maxGas int64) int {
 	n := 0
 	for _, e := range m.ordered() {
 		b += protoSize(m.txs[e.idx])
-		g += e.gas
-		if (maxBytes >= 0 && b > maxBytes) || (maxGas >= 0 && g > maxGas) {
+		// the gas sum is compared without ever forming a value above the limit (no int64 overflow); gas is >= 0
+		if (maxBytes >= 0 && b > maxBytes) || (maxGas >= 0 && e.gas > maxGas-g) {
 			break
 		}
+		g += e.gas
 		n++
 	}
 	return n
